@@ -256,6 +256,12 @@ def is_sym(x) -> bool:
 
 
 class Sym:
+    def __deepcopy__(self, memo):  # symbolic values are immutable: a clone shares the term
+        return self
+
+    def __copy__(self):
+        return self
+
     __slots__ = ("t",)
 
     def __init__(self, t):
